@@ -59,15 +59,15 @@ fn write_subword_fn<W: Write>(
 
             for ((literal_id = 0; literal_id < nliterals; literal_id++)); do
                 local literal=${{literals[$literal_id]}}
-                if [[ $subword == $literal && -v "state_transitions[$literal_id]" ]]; then
+                if [[ $subword == "$literal" && -v "state_transitions[$literal_id]" ]]; then
                     subword_state=${{state_transitions[$literal_id]}}
                     char_index=$((char_index + ${{#literal}}))
                     continue 2
                 fi
-                if [[ $literal == $subword* ]]; then
+                if [[ $literal == "$subword"* ]]; then
                     break 2
                 fi
-                if [[ $subword == $literal* && -v "state_transitions[$literal_id]" ]]; then
+                if [[ $subword == "$literal"* && -v "state_transitions[$literal_id]" ]]; then
                     subword_state=${{state_transitions[$literal_id]}}
                     char_index=$((char_index + ${{#literal}}))
                     continue 2
@@ -97,18 +97,18 @@ fn write_subword_fn<W: Write>(
                     done
 
                     for candidate in "${{decreasing_length[@]}}"; do
-                        if [[ $candidate == $subword ]]; then
+                        if [[ $candidate == "$subword" ]]; then
                             match_len=${{#candidate}}
                             char_index=$((char_index + match_len))
                             subword_state=${{state_commands[$cmd_id]}}
                             continue 3
                         fi
 
-                        if [[ $candidate == $subword* ]]; then
+                        if [[ $candidate == "$subword"* ]]; then
                             break 3
                         fi
 
-                        if [[ $subword == $candidate* ]]; then
+                        if [[ $subword == "$candidate"* ]]; then
                             match_len=${{#candidate}}
                             char_index=$((char_index + match_len))
                             subword_state=${{state_commands[$cmd_id]}}
@@ -585,7 +585,7 @@ fi
                     done
 
                     for candidate in "${{decreasing_length[@]}}"; do
-                        if [[ $candidate == $word ]]; then
+                        if [[ $candidate == "$word" ]]; then
                             state=${{state_commands[$cmd_id]}}
                             word_index=$((word_index + 1))
                             continue 3
